@@ -1114,6 +1114,8 @@ class Evaluator(Run):
             self.ex(s, frame)
 
     def ex(self, node, frame):
+        if self.ctx.c.asserts:
+            self.ctx.statement_asserts(self, node, frame)
         ab = self.ctx.abstract_for(node)
         if ab is not None:
             return self.ex_abstract(node, frame, ab)
@@ -1121,8 +1123,6 @@ class Evaluator(Run):
         if m is None:
             raise Unsupported("statement %s (line %s)" % (type(node).__name__, node.lineno))
         self.cur_stmt = node
-        if self.ctx.c.asserts:
-            self.ctx.statement_asserts(self, node, frame)
         return m(node, frame)
 
     def ex_abstract(self, node, frame, ab):
